@@ -65,6 +65,19 @@ def proto_check(ctx, module, theorems, sections, extra_quick, extra_thorough, pr
     samples = []
     latency = 0
     distinct = set()
+    # implementation-level failures first (they are the failing inputs), the Lean-side differences after
+    for o in outs:
+        if "crash" in o:
+            continue
+        for f in o["fails"]:
+            if f["prop"] in props:
+                nfail += 1
+                if reported < 3:
+                    reported += 1
+                    kept = keep_file(ctx, f["replay"], "img%d" % reported)
+                    violation(ctx, "%s: %s" % (what, f["what"]), "# %s\n# image / script kept at: %s\n# re-run: harness/target/release/proto --seed %d %s\n" % (
+                        f["what"], kept, ctx.seed * 1000 + outs.index(o), " ".join(sections)))
+    lean_reported = 0
     for o in outs:
         if "crash" in o:
             violation(ctx, "proto harness did not finish: " + o["crash"], o["crash"], tag="crash")
@@ -76,21 +89,13 @@ def proto_check(ctx, module, theorems, sections, extra_quick, extra_thorough, pr
             kinds[k] = kinds.get(k, 0) + v
         if not samples and m.get("samples"):
             samples = m["samples"][:2]
-        for f in o["fails"]:
-            if f["prop"] in props:
-                nfail += 1
-                if reported < 3:
-                    reported += 1
-                    kept = keep_file(ctx, f["replay"], "img%d" % reported)
-                    violation(ctx, "%s: %s" % (what, f["what"]), "# %s\n# image / script kept at: %s\n# re-run: harness/target/release/proto --seed %d %s\n" % (
-                        f["what"], kept, ctx.seed * 1000 + outs.index(o), " ".join(sections)))
         lines += len(o["ops"])
         for idx, (op, im, mo) in enumerate(zip(o["ops"], o["impl"], o["model"])):
             distinct.add(hashlib.sha1((op.split(" /dev/shm")[0] + im).encode()).digest())
             if norm(im) != norm(mo) and lean_relevant(op):
                 diffs += 1
-                if reported < 3:
-                    reported += 1
+                if lean_reported < 2:
+                    lean_reported += 1
                     if op.startswith("dur "):
                         # find the key's whole event block
                         s = idx
@@ -100,6 +105,14 @@ def proto_check(ctx, module, theorems, sections, extra_quick, extra_thorough, pr
                         violation(ctx, "trace validation: the durability machine Feox.Proto.Dur rejects an event the implementation performed (%s) — "
                                   "acknowledgement / retirement / publication order differs from the protocol the C02/C09 theorems are about" % op,
                                   "".join(l + "\n" for l in blk), no_input=(nfail == 0))
+                    elif op.startswith("txn "):
+                        s0 = idx
+                        while s0 > 0 and not (o["ops"][s0].startswith("txn new") or o["ops"][s0].startswith("txn resume")):
+                            s0 -= 1
+                        blk = [l for l in o["ops"][s0:idx + 1] if l.startswith("txn ")]
+                        violation(ctx, "trace validation: the device trace breaks the journal discipline (Feox.Proto.Txn.step? rejects `%s`: %s) — a data-area write "
+                                  "outside a durably journalled run, or a journal rewrite over un-synced writes; Txn.crash_view no longer covers the crash images of this trace" % (op, mo),
+                                  "".join(l + "\n" for l in blk) + "# verdict: %s\n" % mo, no_input=(nfail == 0))
                     else:
                         kept = []
                         for t in op.split(" "):
